@@ -5,6 +5,9 @@ mod c03;
 mod c05;
 mod c06;
 mod c09;
+mod c11;
+mod c12;
+mod c13;
 mod c15;
 mod c18;
 mod c19;
@@ -68,6 +71,24 @@ fn registry(id: &str) -> Option<PropDef> {
             level: "exploration",
             subs: vec![enumerated::<c09::OneType>()],
             assumptions: vec!["complete within the stated history-length bound; the complete Writer has no finalize, so its histories contain writes only"],
+        },
+        "C11" => PropDef {
+            level: "fault_enumeration",
+            subs: vec![random::<c11::Crash>()],
+            assumptions: vec![
+                "a crash is modelled at the granularity of the write/seek/flush calls the library issues on its destination, with every byte cut inside a write; .shp and .shx prefixes are independent",
+                "OS page-cache reordering and BufWriter buffering on the from_path route are outside the model",
+            ],
+        },
+        "C12" => PropDef {
+            level: "fault_enumeration",
+            subs: vec![random::<c12::DestFaults>()],
+            assumptions: vec!["faults are injected at the Write/Seek trait calls of the destination type handed to the writer; the failing call is identified by bracketing each API call with the destination's op counter"],
+        },
+        "C13" => PropDef {
+            level: "fault_enumeration",
+            subs: vec![random::<c13::Sources>()],
+            assumptions: vec!["faults are injected at the Read/Seek trait calls of the source type handed to the reader; files come from the reference encoder (which also produces the library writer's layout)"],
         },
         "C15" => PropDef {
             level: "exploration",
